@@ -387,6 +387,30 @@ func scMeltQuote() scenario {
 	}}
 }
 
+// an MPP melt quote for part of the mint's own, unpaid invoice must be refused - also when the lookup of the mint quote fails
+func scMeltQuoteOwnMpp() scenario {
+	return scenario{name: "meltquote-own-mpp", family: "meltquote", setup: func(h *Hist) (func(mode), func(), func(string, string)) {
+		h.fundAmount(8)
+		own := h.OpMintQuote(mode{}, 64, false, false, true)
+		var q *hMeltQ
+		target := func(m mode) {
+			if own != nil {
+				q = h.OpMeltQuote(m, 0, own, 2000, true, true, nil)
+			}
+		}
+		follow := func() {
+			if q != nil && own != nil {
+				h.OpMelt(mode{}, q, h.honestIns(1), false)
+				h.OpMeltState(mode{}, q, false)
+				h.OpMintState(mode{}, own, false)
+				h.OpMint(mode{}, own, h.freshOutputs(cashu.AmountSplit(64)), 0, false)
+			}
+			h.OpBalance(mode{})
+		}
+		return target, follow, func(string, string) {}
+	}}
+}
+
 // requests that only read, poll a mint quote, or restart: cut and faulted like the others (Coq: CutFrames.v)
 func scQuery(which string) scenario {
 	return scenario{name: "query-" + which, family: "query", setup: func(h *Hist) (func(mode), func(), func(string, string)) {
@@ -437,7 +461,7 @@ func cutScenarios(tier string) []scenario {
 	l := []scenario{scSwap(0), scSwap(1000), scMint(false), scMint(true),
 		scMelt(0, nil, false), scMelt(2, []int{0}, false), scMelt(1, []int{1}, false), scMelt(3, []int{4}, false),
 		scMelt(3, []int{2, 0}, false), scMelt(1, []int{0}, false), scMelt(0, nil, true),
-		scResolve(0, 0), scResolve(1, 0), scResolve(0, 1), scResolve(1, 1), scRotate(), scQuotes(), scMeltQuote(),
+		scResolve(0, 0), scResolve(1, 0), scResolve(0, 1), scResolve(1, 1), scRotate(), scQuotes(), scMeltQuote(), scMeltQuoteOwnMpp(),
 		scQuery("mintstate"), scQuery("watcher"), scQuery("restore"), scQuery("balance"), scQuery("info")}
 	if tier == "thorough" {
 		for _, p := range []int{1, 3} {
@@ -459,6 +483,9 @@ func streamCuts(sink *Sink, rng *rand.Rand, tier string, scratch string) {
 		cfg := cfgT{feePct: 2, fee0: 0}
 		if strings.HasSuffix(sc.name, "fee1000") {
 			cfg.fee0 = 1000
+		}
+		if strings.HasSuffix(sc.name, "-mpp") {
+			cfg.mpp = true
 		}
 		h := NewHist(sink, rand.New(rand.NewSource(seed0)), scratch, cfg, 1, "C07")
 		h.cuts = true
